@@ -24,8 +24,15 @@
 //!             again with the same waker, drop) D (drain: recv until Disconnected) y
 //!             rc (async only: create a recv future, poll once with a counting waker, scheduling point,
 //!                 drop it)
+//!             rw / sw (async only: poll once with a waker that unparks the thread; if Pending, park until
+//!                 that waker is invoked, then drop the future WITHOUT polling it again: a woken future
+//!                 dropped un-polled must pass its wake-up on)
 //!             rp (async only: poll once with a counting waker, then block_on the SAME future, i.e.
 //!                 re-poll with a different waker)
+//!             K  (mpmcb only, last op: keep this receiver handle alive after the thread ends, like an idle
+//!                 task holding it; the teardown then does not release parked senders, and a run that ends
+//!                 with parked threads is judged by their wait conditions: a sender parked although the
+//!                 buffer has room / a receiver parked although items are buffered is a lost wake-up)
 //! stdout per scenario:
 //!   ok runs=<n> steps=<total> events=<total> done=<completed> ...
 //!   FAIL <clause>[,<clause>...] run=<i> seed=<s> :: <detail> :: choices=<c,c,...>
@@ -66,6 +73,9 @@ trait TxH: Send {
   fn send_cancel(&mut self, _p: P) -> Res {
     panic!("op sc needs an async handle")
   }
+  fn send_woken_drop(&mut self, _p: P) -> Res {
+    panic!("op sw needs an async handle")
+  }
   fn dup(&self) -> Option<Box<dyn TxH>>;
   /// sync <-> async conversion (to_async / to_sync)
   fn flip(self: Box<Self>) -> Box<dyn TxH>;
@@ -81,9 +91,15 @@ trait RxH: Send {
   fn recv_repoll(&mut self) -> Res {
     panic!("op rp needs an async handle")
   }
+  fn recv_woken_drop(&mut self) -> Res {
+    panic!("op rw needs an async handle")
+  }
   fn dup(&self) -> Option<Box<dyn RxH>>;
   fn flip(self: Box<Self>) -> Box<dyn RxH>;
   fn mode(&self) -> Mode;
+  /// (buffered items, capacity) where the handle can tell (used to judge a quiescent state with a
+  /// kept-alive receiver, op `K`)
+  fn probe(&self) -> Option<(usize, usize)>;
 }
 
 fn try_send_res(id: u64, r: Result<(), fibre::TrySendError<P>>) -> Res {
@@ -173,6 +189,15 @@ macro_rules! impl_tx_async {
           }
         }
       }
+      fn send_woken_drop(&mut self, p: P) -> Res {
+        let id = p.0;
+        let mut fut = std::pin::pin!(<$t>::send(self, p));
+        match poll_wait_woken(fut.as_mut()) {
+          Some(Ok(())) => Res::SendOk(id),
+          Some(Err(_)) => Res::SendClosedDropped(id),
+          None => Res::SendCancelled(id),
+        }
+      }
       fn dup(&self) -> Option<Box<dyn TxH>> {
         let f: fn(&$t) -> Option<Box<dyn TxH>> = $clone;
         f(self)
@@ -189,7 +214,7 @@ macro_rules! impl_tx_async {
 }
 
 macro_rules! impl_rx {
-  ($t:ty, $other:ty, $conv:ident, $clone:expr) => {
+  ($t:ty, $other:ty, $conv:ident, $clone:expr, $probe:expr) => {
     impl RxH for $t {
       fn recv(&mut self) -> Res {
         match <$t>::recv(self) {
@@ -218,12 +243,16 @@ macro_rules! impl_rx {
       fn mode(&self) -> Mode {
         Mode::Sync
       }
+      fn probe(&self) -> Option<(usize, usize)> {
+        let f: fn(&$t) -> Option<(usize, usize)> = $probe;
+        f(self)
+      }
     }
   };
 }
 
 macro_rules! impl_rx_async {
-  ($t:ty, $other:ty, $conv:ident, $clone:expr) => {
+  ($t:ty, $other:ty, $conv:ident, $clone:expr, $probe:expr) => {
     impl RxH for $t {
       fn recv(&mut self) -> Res {
         match bo(<$t>::recv(self)) {
@@ -253,6 +282,14 @@ macro_rules! impl_rx_async {
           }
         }
       }
+      fn recv_woken_drop(&mut self) -> Res {
+        let mut fut = std::pin::pin!(<$t>::recv(self));
+        match poll_wait_woken(fut.as_mut()) {
+          Some(Ok(v)) => val(v),
+          Some(Err(_)) => Res::Disc,
+          None => Res::Cancelled,
+        }
+      }
       fn recv_repoll(&mut self) -> Res {
         let mut fut = std::pin::pin!(<$t>::recv(self));
         let first = poll_once(fut.as_mut());
@@ -276,17 +313,26 @@ macro_rules! impl_rx_async {
       fn mode(&self) -> Mode {
         Mode::Async
       }
+      fn probe(&self) -> Option<(usize, usize)> {
+        let f: fn(&$t) -> Option<(usize, usize)> = $probe;
+        f(self)
+      }
     }
   };
 }
 
 macro_rules! chan {
   ($st:ty, $at:ty, $sr:ty, $ar:ty, $txc:tt, $rxc:tt) => {
+    chan!($st, $at, $sr, $ar, $txc, $rxc, noprobe);
+  };
+  ($st:ty, $at:ty, $sr:ty, $ar:ty, $txc:tt, $rxc:tt, $pr:tt) => {
     impl_tx!($st, $at, to_async, chan!(@tx $txc));
     impl_tx_async!($at, $st, to_sync, chan!(@tx $txc));
-    impl_rx!($sr, $ar, to_async, chan!(@rx $rxc));
-    impl_rx_async!($ar, $sr, to_sync, chan!(@rx $rxc));
+    impl_rx!($sr, $ar, to_async, chan!(@rx $rxc), chan!(@probe $pr));
+    impl_rx_async!($ar, $sr, to_sync, chan!(@rx $rxc), chan!(@probe $pr));
   };
+  (@probe probe) => { |r| Some((r.len(), r.capacity())) };
+  (@probe noprobe) => { |_| None };
   (@tx yes) => { |t| Some(Box::new(t.clone())) };
   (@tx no) => { |_| None };
   (@rx yes) => { |t| Some(Box::new(t.clone())) };
@@ -296,7 +342,7 @@ macro_rules! chan {
 chan!(fibre::spsc::BoundedSyncSender<P>, fibre::spsc::BoundedAsyncSender<P>, fibre::spsc::BoundedSyncReceiver<P>, fibre::spsc::BoundedAsyncReceiver<P>, no, no);
 chan!(fibre::mpsc::BoundedSyncSender<P>, fibre::mpsc::BoundedAsyncSender<P>, fibre::mpsc::BoundedSyncReceiver<P>, fibre::mpsc::BoundedAsyncReceiver<P>, yes, no);
 chan!(fibre::mpsc::UnboundedSyncSender<P>, fibre::mpsc::UnboundedAsyncSender<P>, fibre::mpsc::UnboundedSyncReceiver<P>, fibre::mpsc::UnboundedAsyncReceiver<P>, yes, no);
-chan!(fibre::mpmc::Sender<P>, fibre::mpmc::AsyncSender<P>, fibre::mpmc::Receiver<P>, fibre::mpmc::AsyncReceiver<P>, yes, yes);
+chan!(fibre::mpmc::Sender<P>, fibre::mpmc::AsyncSender<P>, fibre::mpmc::Receiver<P>, fibre::mpmc::AsyncReceiver<P>, yes, yes, probe);
 chan!(fibre::mpmc::UnboundedSyncSender<P>, fibre::mpmc::UnboundedAsyncSender<P>, fibre::mpmc::UnboundedSyncReceiver<P>, fibre::mpmc::UnboundedAsyncReceiver<P>, yes, yes);
 chan!(fibre::mpmc::rendezvous::RendezvousSyncSender<P>, fibre::mpmc::rendezvous::RendezvousAsyncSender<P>, fibre::mpmc::rendezvous::RendezvousSyncReceiver<P>, fibre::mpmc::rendezvous::RendezvousAsyncReceiver<P>, yes, yes);
 chan!(fibre::spsc::rendezvous::RendezvousSyncSender<P>, fibre::spsc::rendezvous::RendezvousAsyncSender<P>, fibre::spsc::rendezvous::RendezvousSyncReceiver<P>, fibre::spsc::rendezvous::RendezvousAsyncReceiver<P>, no, no);
@@ -357,6 +403,9 @@ fn run_once(sc: &Scenario, policy: Policy, record: bool) -> OneRun {
     drop(rx0);
   }
   let results: Arc<Mutex<Vec<Vec<Ev>>>> = Arc::new(Mutex::new(vec![Vec::new(); sc.threads.len()]));
+  // receiver handles kept alive past their thread's end (op `K`): the senders are then not released
+  // by the teardown, so a sender that should have been woken stays parked and is seen as such
+  let stash: Arc<Mutex<Vec<Box<dyn RxH>>>> = Arc::new(Mutex::new(Vec::new()));
   let mut bodies: Vec<Box<dyn FnOnce() + Send>> = Vec::new();
   let mut pi = 0u64;
   for (ti, th) in sc.threads.iter().enumerate() {
@@ -388,6 +437,10 @@ fn run_once(sc: &Scenario, policy: Policy, record: bool) -> OneRun {
               seq += 1;
               stamp(&mut out, || tx.send_cancel(P(base + seq)));
             }
+            "sw" => {
+              seq += 1;
+              stamp(&mut out, || tx.send_woken_drop(P(base + seq)));
+            }
             "y" => std::thread::yield_now(),
             o => panic!("bad producer op {o}"),
           }
@@ -401,8 +454,10 @@ fn run_once(sc: &Scenario, policy: Policy, record: bool) -> OneRun {
       if rx.mode() != th.mode {
         rx = rx.flip();
       }
+      let stash = stash.clone();
       bodies.push(Box::new(move || {
         enter_thread(ti);
+        let mut keep = false;
         let mut out = Vec::new();
         for (oi, op) in ops.iter().enumerate() {
           set_op(oi);
@@ -412,6 +467,7 @@ fn run_once(sc: &Scenario, policy: Policy, record: bool) -> OneRun {
             "rt" => stamp(&mut out, || rx.recv_timeout(Duration::from_micros(20))),
             "rc" => stamp(&mut out, || rx.recv_cancel()),
             "rp" => stamp(&mut out, || rx.recv_repoll()),
+            "rw" => stamp(&mut out, || rx.recv_woken_drop()),
             "D" => loop {
               stamp(&mut out, || rx.recv());
               // publish progressively so a deadlocked run still shows what was received
@@ -420,23 +476,73 @@ fn run_once(sc: &Scenario, policy: Policy, record: bool) -> OneRun {
                 break;
               }
             },
+            "K" => keep = true,
             "y" => std::thread::yield_now(),
             o => panic!("bad consumer op {o}"),
           }
           results.lock().unwrap()[ti] = out.clone();
         }
-        drop(rx);
+        if keep {
+          stash.lock().unwrap().push(rx);
+        } else {
+          drop(rx);
+        }
         done();
       }));
     }
   }
   let rr = run(policy, 200_000, record, bodies);
   let results = results.lock().unwrap().clone();
-  finish_run(sc.threads.len(), rr, results)
+  let mut one = finish_run(sc.threads.len(), rr, results);
+  // (at a deadlock every unfinished thread sits in park(): none of them holds a channel lock)
+  one.kept_probe = stash.lock().unwrap().first().map(|h| h.probe());
+  one
+}
+
+/// A run with a kept-alive receiver (`K`) that ends with parked threads is a violation only if a
+/// parked thread's wait condition holds in that quiescent state (C05: "parked forever while the
+/// operation it is waiting for has become possible"); a sender parked on a full buffer whose
+/// receivers are merely idle is a legitimate end of the program.
+fn judge_kept(sc: &Scenario, r: &OneRun, parked: &[usize], probe: Option<(usize, usize)>) -> Option<(String, String)> {
+  let n = sc.threads.len();
+  let Some((len, cap)) = probe else { return stuck_clauses(sc, r, None) };
+  let producers_done = (0..n).filter(|&i| sc.threads[i].producer).all(|i| r.done[i]);
+  let mut cl: Vec<String> = Vec::new();
+  let mut why = Vec::new();
+  for &i in parked.iter().filter(|&&i| i < n) {
+    let enabled = if sc.threads[i].producer { len < cap } else { len > 0 || producers_done };
+    if enabled {
+      if cl.is_empty() {
+        cl.push("C05:deadlock".into());
+      }
+      if r.in_bo[i] && !cl.contains(&"C06:missed-wake".to_string()) {
+        cl.push("C06:missed-wake".into());
+      }
+      if !sc.threads[i].producer && len == 0 && !cl.contains(&"C04:no-disc".to_string()) {
+        cl.push("C04:no-disc".into());
+      }
+      if any_cancelled(r) && !cl.contains(&"C06:cancel-swallowed-wake".to_string()) {
+        cl.push("C06:cancel-swallowed-wake".into());
+      }
+      why.push(format!(
+        "t{i} ({}{}) is parked for ever although {}",
+        if sc.threads[i].producer { "sender" } else { "receiver" },
+        if r.in_bo[i] { ", inside block_on" } else { "" },
+        if sc.threads[i].producer { format!("the buffer holds {len} of {cap} items") } else if len > 0 { format!("{len} items are buffered") } else { "every sender is gone".to_string() }
+      ));
+    }
+  }
+  if cl.is_empty() {
+    return None;
+  }
+  Some((cl.join(","), format!("quiescent state with a live idle receiver: {}; results={}", why.join("; "), fmt_results(&r.results))))
 }
 
 /// property monitors over one completed/aborted run; returns (clause[,clause..], detail)
 fn judge(sc: &Scenario, r: &OneRun) -> Option<(String, String)> {
+  if let (Outcome::Deadlock(parked), Some(probe)) = (&r.outcome, r.kept_probe) {
+    return judge_kept(sc, r, parked, probe);
+  }
   if r.outcome != Outcome::Completed {
     return stuck_clauses(sc, r, None);
   }
